@@ -76,6 +76,10 @@ def gen_cases(rng, tier):
             yield {'op': 'enc', 'code': code, 'n': n, 'route': 'kw', 'lsb0': False}
         yield {'op': 'enc', 'code': code, 'n': 5, 'route': 'kw', 'lsb0': True}
         yield {'op': 'read', 'code': code, 'bits': '0001000', 'pos': 0, 'lsb0': True, 'via': 'read'}
+    for code in CODES:
+        for _ in range(25 if tier == 'quick' else 400):
+            n = rng.randrange(0, 300) * (rng.choice([1, -1]) if code in ('se', 'sie') else 1)
+            yield {'op': 'setter_history', 'code': code, 'n': n, 'cls': rng.choice(['BitArray', 'BitStream'])}
     # decoder: all bit strings up to L at all positions
     L = 7 if tier == 'quick' else 12
     for l in range(0, L + 1):
@@ -89,7 +93,7 @@ def gen_cases(rng, tier):
         l = rng.choice([13, 16, 31, 64, 65, 200, 1000])
         s = ''.join(rng.choice('0001') for _ in range(l))
         code = rng.choice(CODES)
-        yield {'op': 'read', 'code': code, 'bits': s, 'pos': rng.randrange(0, l + 1), 'via': rng.choice(['read', 'peek', 'internal', 'readlist'])}
+        yield {'op': 'read', 'code': code, 'bits': s, 'pos': rng.randrange(0, l + 1), 'via': rng.choice(['read', 'peek', 'internal', 'readlist']), 'opt_ba': rng.random() < 0.4}
     # truncated / trailing / streams
     for _ in range(150 if tier == 'quick' else 3000):
         code = rng.choice(CODES)
@@ -101,7 +105,7 @@ def gen_cases(rng, tier):
         yield {'op': 'read', 'code': code, 'bits': pre + w[:cut], 'pos': len(pre), 'via': rng.choice(['read', 'peek', 'internal'])}
         yield {'op': 'whole', 'code': code, 'bits': w[:cut]}
         yield {'op': 'whole', 'code': code, 'bits': w + ''.join(rng.choice('01') for _ in range(rng.randrange(1, 5)))}
-        yield {'op': 'whole', 'code': code, 'bits': w}
+        yield {'op': 'whole', 'code': code, 'bits': w, 'opt_ba': rng.random() < 0.4}
     for _ in range(100 if tier == 'quick' else 2500):
         k = rng.randrange(1, 9)
         items = []
@@ -113,7 +117,7 @@ def gen_cases(rng, tier):
             items.append([code, n])
         pre = ''.join(rng.choice('01') for _ in range(rng.randrange(0, 12)))
         rest = ''.join(rng.choice('01') for _ in range(rng.randrange(0, 12)))
-        yield {'op': 'stream', 'items': items, 'pre': pre, 'rest': rest, 'via': rng.choice(['readlist', 'reads', 'unpack'])}
+        yield {'op': 'stream', 'items': items, 'pre': pre, 'rest': rest, 'via': rng.choice(['readlist', 'reads', 'unpack']), 'opt_ba': rng.random() < 0.4}
 
 def kind(c):
     return c['op'] + ':' + c.get('via', c.get('route', ''))
@@ -124,6 +128,7 @@ def run_impl(c):
     from bitstring import Bits, BitArray, ConstBitStream, BitStream, pack, Dtype
     from bitstring import bitstore_helpers as bh
     bitstring.options.lsb0 = bool(c.get('lsb0'))
+    bitstring.options.bytealigned = bool(c.get('opt_ba'))      # the codes do not depend on this option (reset by the driver)
     op = c['op']
     if op == 'enc':
         code, n, route = c['code'], c['n'], c['route']
@@ -135,6 +140,16 @@ def run_impl(c):
             if route == 'build': return Dtype(code).build(n).bin
             if route == 'setattr':
                 a = BitArray('0b1'); setattr(a, code, n); return a.bin
+        return attempt(f)
+    if op == 'setter_history':
+        # assign through the property, edit the object in place, then encode the same integer again through other routes
+        code, n = c['code'], c['n']
+        def f():
+            x = (BitArray if c['cls'] == 'BitArray' else BitStream)()
+            setattr(x, code, n)
+            first = x.bin
+            x.append('0b1'); x.invert(); x[0] = 1
+            return [first, Bits(**{code: n}).bin, pack(code, n).bin, BitArray(**{code: n}).bin, Bits(f'{code}={n}').bin, getattr(bh, code + '2bitstore')(n)._bitarray.to01()]
         return attempt(f)
     if op == 'whole':
         return attempt(lambda: getattr(Bits(bin=c['bits']), c['code']))
@@ -183,6 +198,12 @@ def oracle(c, obs):
         elif obs != ('ok', ref):
             return f"{c['code']}({c['n']}) via {c['route']} gave {obs}, table says {ref}"
         return None
+    if op == 'setter_history':
+        ref = ref_enc(c['code'], c['n'])
+        if obs[0] != 'ok': return f"{c['cls']}().{c['code']} = {c['n']}, edit, encode again: raised {obs}"
+        if any(x != ref for x in obs[1]):
+            return f"after x.{c['code']} = {c['n']} and in-place edits of x, the encodings of {c['n']} are {obs[1]} (property value first); the table says {ref!r} for all of them"
+        return None
     if op == 'whole':
         d = ref_dec(c['code'], c['bits'])
         if d is not None and d[1] == len(c['bits']):
@@ -211,7 +232,7 @@ def oracle(c, obs):
         return None
 
 def nontrivial(c, obs):
-    if c['op'] == 'enc': return c['n'] != 0
+    if c['op'] in ('enc', 'setter_history'): return c['n'] != 0
     if c['op'] == 'stream': return len(c['items']) > 1
     return '0' in c['bits'] and '1' in c['bits']
 
@@ -222,6 +243,8 @@ def classify(c, obs):
 def coq_check(c, obs):
     if c.get('lsb0'): return None
     op = c['op']
+    if op == 'setter_history':
+        return f"rbits_eqb (g_enc {COQC[c['code']]} {cz(c['n'])}) (Ok {cbits(obs[1][0])})" if obs[0] == 'ok' else None
     if op == 'enc':
         if c['route'] in ('token',) and obs[0] == 'err': return None  # token strings: parse errors are C05's
         return f"rbits_eqb (g_enc {COQC[c['code']]} {cz(c['n'])}) {cres(obs, cbits)}"
